@@ -12,5 +12,5 @@ assert s.count(old) >= 1, "pattern not found: " + old
 s = s.replace(old, new, 1)
 open(p, 'w').write(s)
 PY
-VERIF_REPO=$D /verif/check $PROP 2>&1 | cut -c1-220 | tail -4 || true
+VERIF_REPO=$D "$(dirname "$0")/../check" $PROP 2>&1 | cut -c1-220 | tail -4 || true
 rm -rf $D
